@@ -1,5 +1,6 @@
 // corr: correspondence + property-observation runner. One sub-command per property.
-//   corr <Cxx> -seed S -n N -tier quick|thorough -out DIR [-replay FILE]
+//
+//	corr <Cxx> -seed S -n N -tier quick|thorough -out DIR [-replay FILE]
 package main
 
 import (
